@@ -2,7 +2,8 @@
 R1 physical units of every generator; R3 one-step conditional moments (Vasicek, CIR incl. both QE branches, local volatility);
 R4 Heston log-spot coefficients (Andersen K0..K4); R5 termination of recursive generators.
 Added after the seeded-defect rounds: R7 also: the Sobol dimension must cover the time axis (known finding KF5).
-Third round: R10 simulate() forwards the caller's initial state (tuple and scalar form, every path) and the instrument's own parameters to the generator; local volatility on a linspace grid is modelled."""
+Third round: R10 simulate() forwards the caller's initial state (tuple and scalar form, every path) and the instrument's own parameters to the generator; local volatility on a linspace grid is modelled.
+Rounds 4-5: exports of pfhedge.stochastic / primary instruments."""
 import sympy as sp
 
 from .. import entrypoints as E
